@@ -55,12 +55,12 @@ using T = eventpp::EventDispatcher<int, void(uint32_t, uint32_t), Pol>;
 #endif
 
 struct Model { uint32_t fid[MAXF]; bool flive[MAXF]; int nf; uint32_t lid[MAXF]; int nl; };
-struct G { T * t; Model m; T::FilterHandle fh[MAXF]; uint32_t verdict[MAXF]; uint32_t delta[MAXF]; };
+struct G { T * t; Model m; T::FilterHandle fh[MAXF]; uint32_t verdict[MAXF]; uint32_t delta[MAXF]; uint32_t fcalls[MAXF]; int killer, victim; bool killDone; };
 static G * g;
 
 extern "C" void harness()
 {
-	g = new G(); g->t = new T(); Model & m = g->m;
+	g = new G(); g->t = new T(); Model & m = g->m; g->killer = -1; g->victim = -1;
 	g->t->appendListener(EV, [](uint32_t a, uint32_t b) { rec(1, 500, a); (void)b; }); m.lid[m.nl++] = 500;
 #ifndef PRE
 #define PRE 0
@@ -70,8 +70,12 @@ extern "C" void harness()
 		if(op == 0) {                                      // append a filter: symbolic verdict and rewrite per call
 			if(m.nf < MAXF) {
 				int i = m.nf;
-				g->fh[i] = g->t->appendFilter([i](uint32_t & a, uint32_t & b) -> bool {
+				// the filter keeps state of its own (a call counter captured by value): every run must be made on the ONE stored filter object;
+				// and a filter may remove a LATER filter while the filters are running (killer / victim, drawn per dispatch)
+				g->fh[i] = g->t->appendFilter([i, mine = 0u](uint32_t & a, uint32_t & b) mutable -> bool {
 					rec(0, (uint32_t)i, a);
+					mine++; g->fcalls[i]++; vf_assert(mine == g->fcalls[i], 258);
+					if(g->killer == i && ! g->killDone) { g->killDone = true; bool r = g->t->removeFilter(g->fh[g->victim]); vf_assert(r, 259); }
 					a = a + g->delta[i]; b = b ^ 1u;
 					return (g->verdict[i] & 1u) != 0;
 				});
@@ -94,7 +98,7 @@ extern "C" void harness()
 		else if(op == 4) {                                 // dispatch of an event NOBODY listens to: the filters run all the same
 			uint32_t a = vf_nondet_u32(), b = vf_nondet_u32();
 			for(int i = 0; i < m.nf; i++) { g->verdict[i] = vf_nondet_u32(); g->delta[i] = 0; }
-			g_gate_verdict = 1; g_trn = 0;
+			g_gate_verdict = 1; g_trn = 0; g->killer = -1; g->victim = -1;
 #if TK == 1
 			if(vf_choose(2)) { g->t->enqueue(EV + 1, a, b); g->t->process(); } else g->t->dispatch(EV + 1, a, b);
 #else
@@ -113,6 +117,12 @@ extern "C" void harness()
 			for(int i = 0; i < m.nf; i++) { g->verdict[i] = vf_nondet_u32(); g->delta[i] = vf_nondet_u32(); }
 			g_gate_verdict = vf_nondet_u32();
 			const uint32_t a0 = a;      // heterogeneous dispatch forwards lvalues: filters may rewrite the caller's own variable
+			// optionally one live filter removes the next live filter when its turn comes in THIS dispatch
+			g->killer = -1; g->victim = -1; g->killDone = false;
+			if(m.nf >= 2) {
+				int kk = (int)vf_choose((unsigned)m.nf + 1) - 1;
+				if(kk >= 0 && m.flive[kk]) { int v = -1; for(int j = kk + 1; j < m.nf && v < 0; j++) if(m.flive[j]) v = j; if(v >= 0) { g->killer = kk; g->victim = v; } }
+			}
 			g_trn = 0;
 #if TK == 1
 			switch(vf_choose(4)) {
@@ -137,6 +147,7 @@ extern "C" void harness()
 				vf_assert(k < g_trn && g_tr[k].kind == 0 && g_tr[k].id == m.fid[i], 263);   // insertion order
 				if(k < g_trn) vf_assert(g_tr[k].val == cur, 264);                   // sees the modifications of earlier filters (lvalue)
 				k++;
+				if(i == g->killer) { m.flive[g->victim] = false; vf_assert(g->killDone, 257); }   // it removed a later filter: that one does not run any more, not even in this dispatch
 				if(g->delta[i] != 0) vf_cover(COV_FILTER_REWRITES);
 				cur = cur + g->delta[i];
 				if((g->verdict[i] & 1u) == 0) { open = false; vf_cover(COV_FILTER_BLOCKS); } else passed++;
@@ -194,6 +205,8 @@ extern "C" void harness()
 	static uint32_t mask, want; mask = vf_nondet_u32(); want = vf_nondet_u32();
 	d->appendListener(EV, eventpp::conditionalFunctor([](uint32_t a, uint32_t b) { rec(1, 1, a ^ b); }, [](uint32_t a, uint32_t) { rec(0, 0, a); return (a & mask) == want; }));
 	d->appendListener(EV, [](uint32_t a, uint32_t) { rec(1, 2, a); });
+	// a condition whose result is not a bool but a mask / count: it "holds" when the result is non-zero (contextual conversion), not when it equals 1
+	d->appendListener(EV, eventpp::conditionalFunctor([](uint32_t a, uint32_t b) { rec(1, 3, a + b); }, [](uint32_t a, uint32_t) -> uint32_t { rec(0, 9, a); return a & mask; }));
 	for(int i = 0; i < 2; i++) {
 		uint32_t a = vf_nondet_u32(), b = vf_nondet_u32();
 		g_trn = 0;
@@ -203,6 +216,8 @@ extern "C" void harness()
 		vf_assert(g_trn >= 1 && g_tr[0].kind == 0 && g_tr[0].val == a, 275); k = 1;         // condition evaluated on the dispatched arguments
 		if(holds) { vf_assert(k < g_trn && g_tr[k].id == 1 && g_tr[k].val == (a ^ b), 276); k++; } else vf_cover(COV_COND_FALSE);
 		vf_assert(k < g_trn && g_tr[k].id == 2 && g_tr[k].val == a, 277); k++;
+		vf_assert(k < g_trn && g_tr[k].kind == 0 && g_tr[k].id == 9 && g_tr[k].val == a, 279); k++;
+		if((a & mask) != 0) { vf_assert(k < g_trn && g_tr[k].id == 3 && g_tr[k].val == a + b, 279); k++; }
 		vf_assert(g_trn == k, 278);
 	}
 	delete d;
